@@ -195,9 +195,11 @@ def opt_firstset(ctx):
         if key == "CharClass":
             rs = {render(p.ret) for p in w.paths}
             out.append(ok(key) if rs == {"a1.character_class"} else bad(key, "CharClass first set must be its own class; found %s" % sorted(rs), b.loc()))
-        elif key == "Repeat":
+        elif key in ("Repeat", "GreedyFixed", "ReluctantFixed", "UnambiguousRepeat", "Capture"):
+            # a single-child operation may delegate to its child: every non-empty match starts with a first character of the child
+            child = "a1.child_op" if key == "Capture" else "a1.operation"
             rs = {_sh(render(p.ret)) for p in w.paths}
-            out.append(ok(key) if rs == {"get_initial_character_class(a1.operation, a2)"} else bad(key, "Repeat first set must be its child's (with the same case_blind); found %s" % sorted(rs), b.loc()))
+            out.append(ok(key) if rs == {"get_initial_character_class(%s, a2)" % child} else bad(key, "%s first set must be its child's (with the same case_blind) or the default all(); found %s" % (key, sorted(rs)), b.loc()))
         elif key == "Atom":
             for p in w.paths:
                 gs, r = summarize(p)
